@@ -29,7 +29,7 @@ open Hc Hc.Tlv8
 
 mutual
 inductive Ty
-  | u8 | u16 | u32 | u64 | i16 | i32 | i64 | f32 | bool | str | bytes
+  | u8 | u16 | u32 | u64 | i8 | i16 | i32 | i64 | f32 | bool | str | bytes
   | struct (fs : Fields)
   /-- `[]T` with `T` a struct of the given fields; `inline` = tagged `tlv8:"-"` -/
   | list (inline : Bool) (fs : Fields)
@@ -76,6 +76,7 @@ def scalarPayload : Ty → Val → Bytes
   | .u32, .nat n => leN 4 n
   | .u64, .nat n => leN 8 n
   | .f32, .nat n => leN 4 n
+  | .i8, .int i => [UInt8.ofNat (toU 8 i)]
   | .i16, .int i => leN 2 (toU 16 i)
   | .i32, .int i => leN 4 (toU 32 i)
   | .i64, .int i => leN 8 (toU 64 i)
@@ -204,6 +205,7 @@ def decScalar : Ty → Bytes → DRes Val
   | .u16, b => (decU16 b).map .nat
   | .u32, b => (decU32 b).map .nat
   | .u64, b => (decU64 b).map .nat
+  | .i8, b => (byte0 b).map fun n => .int (ofU 8 n)
   | .i16, b => (decI16 b).map .int
   | .i32, b => (decI32 b).map .int
   | .i64, b => (decI64 b).map .int
@@ -218,7 +220,7 @@ mutual
 /-- the zero value of a Go type -/
 def zero : Ty → Val
   | .u8 | .u16 | .u32 | .u64 | .f32 => .nat 0
-  | .i16 | .i32 | .i64 => .int 0
+  | .i8 | .i16 | .i32 | .i64 => .int 0
   | .bool => .bool false
   | .str | .bytes => .bytes []
   | .struct fs => .struct (zeros fs)
@@ -333,6 +335,7 @@ def refField (tag : UInt8) : Ty → Val → Bytes
   | .u32, .nat n => tag :: 4 :: leN 4 n
   | .u64, .nat n => tag :: 8 :: leN 8 n
   | .f32, .nat n => tag :: 4 :: leN 4 n
+  | .i8, .int i => [tag, 1, UInt8.ofNat (toU 8 i)]
   | .i16, .int i => tag :: 2 :: leN 2 (toU 16 i)
   | .i32, .int i => tag :: 4 :: leN 4 (toU 32 i)
   | .i64, .int i => tag :: 8 :: leN 8 (toU 64 i)
@@ -405,6 +408,7 @@ def wfVal : Ty → Val → Bool
   | .u32, .nat n => decide (n < 2 ^ 32)
   | .u64, .nat n => decide (n < 2 ^ 64)
   | .f32, .nat n => decide (n < 2 ^ 32) && decide (quietNaN n = n)   -- not a signalling NaN
+  | .i8, .int i => inRange 8 i
   | .i16, .int i => inRange 16 i
   | .i32, .int i => inRange 32 i
   | .i64, .int i => inRange 64 i
